@@ -71,6 +71,10 @@ class Prop:
     def is_nontrivial(self, tags: set[str]) -> bool:
         return bool(tags & self.nontrivial_tags) if self.nontrivial_tags else True
 
+    def post_model(self, case: dict, run: "ImplRun", outs: list[str]) -> str | None:
+        """Called with the model's answers before comparison; return a reason to skip the case."""
+        return None
+
     def extra_coverage(self) -> dict:
         return {}
 
@@ -111,6 +115,11 @@ def run_cases(prop: Prop, cases: list[dict], jobs: int = 1, with_model: bool = T
     for i, (c, r) in enumerate(zip(cases, runs)):
         dis = []
         if i in model_out:
+            why_skip = prop.post_model(c, r, model_out[i])
+            if why_skip:
+                r.skipped = why_skip
+                results.append((c, r, []))
+                continue
             for n, ((line, exp, tol), got) in enumerate(zip(r.lines, model_out[i])):
                 if got == "bad-op":
                     raise Infra(f"{prop.id}: model driver rejected protocol line {line!r}")
